@@ -88,9 +88,19 @@ Definition parse_uidset_db (s : str) (uids : list Z) : list Z :=
 
 (** SELECT ... ORDER BY uid LIMIT ? OFFSET ?  (SQLite: a negative OFFSET is 0,
     a negative LIMIT is "no limit") *)
+Fixpoint zskipn {A} (k : Z) (l : list A) : list A :=
+  match l with
+  | [] => []
+  | _ :: l' => if k <=? 0 then l else zskipn (k - 1) l'
+  end.
+Fixpoint zfirstn {A} (k : Z) (l : list A) : list A :=
+  match l with
+  | [] => []
+  | x :: l' => if k <=? 0 then [] else x :: zfirstn (k - 1) l'
+  end.
 Definition sql_limit_offset {A} (rows : list A) (limit offset : Z) : list A :=
-  let r := skipn (Z.to_nat offset) rows in
-  if limit <? 0 then r else firstn (Z.to_nat limit) r.
+  let r := zskipn offset rows in
+  if limit <? 0 then r else zfirstn limit r.
 
 (** seqNum := k; for rows.Next() { emit (seqNum, uid); seqNum++ } *)
 Fixpoint label_from (k : Z) (rows : list Z) : list (Z * Z) :=
